@@ -943,10 +943,7 @@ class BradleyTerryPart:
         if ranks:
             team_scores = []
             for index, _ in enumerate(game):
-                if isinstance(ranks[index], int):
-                    team_scores.append(ranks[index])
-                else:
-                    team_scores.append(index)
+                team_scores.append(ranks[index])
         else:
             team_scores = [i for i, _ in enumerate(game)]
 
